@@ -35,7 +35,9 @@ class C20(Prop):
     RULE = ('pairs (source history, target history) of API operations on the real hub (virtual ports of all definitions, '
             'every modifiable attribute incl. special-character strings, nested expressions that may refer to ports '
             'created later in the document, inverse transform pairs, values, device names/passwords, disabled slaves with '
-            'pending edits), backup = GET x3 on the source, restore = PUT x3 on the differently configured target; then one '
+            'pending edits; virtual port ids that have a slave device\'s name as a proper prefix; a hub limit of 6 virtual '
+            'ports with source + target together above it), backup = GET x3 on the source, restore = PUT x3 on the differently '
+            'configured target, then the same restore a second time; then one '
             'corrupted document (wrong attribute type / unparsable expression / bad definition in the k-th entry); '
             'non-trivial: source and target differ in >= 1 port set member and >= 1 attribute and the source has an '
             'expression; distinct = distinct source documents')
